@@ -46,6 +46,27 @@ theorem HullRingSpec.convex {pts r : List Pt} {sgn : Int} (h : HullRingSpec pts 
     ∀ e ∈ edges r, ∀ c ∈ r, 0 ≤ sgn * det e.1 e.2 c :=
   fun e he c hc => h.inputs_inside e he c (h.corners_are_inputs c hc)
 
+/-- what an accepted ring output guarantees without the strict-corner requirement -/
+structure HullRingWeakSpec (pts r : List Pt) (sgn : Int) : Prop where
+  sign : sgn = 1 ∨ sgn = -1
+  closed : isClosedRing r = true
+  size : 4 ≤ r.length
+  corners_are_inputs : ∀ c ∈ r, c ∈ pts
+  inputs_inside : ∀ e ∈ edges r, ∀ p ∈ pts, 0 ≤ sgn * det e.1 e.2 p
+
+theorem hullCheckWeak_ring {pts r : List Pt} (h : hullCheckWeak pts (.ring r) = true) :
+    ∃ sgn, HullRingWeakSpec pts r sgn := by
+  simp only [hullCheckWeak, Bool.and_eq_true, Bool.or_eq_true, decide_eq_true_eq, List.all_eq_true] at h
+  obtain ⟨⟨⟨hcl, hsz⟩, hin⟩, hor⟩ := h
+  have hin' : ∀ c ∈ r, c ∈ pts := fun c hc => memB_iff.mp (hin c hc)
+  rcases hor with h1 | h1
+  · exact ⟨1, Or.inl rfl, hcl, hsz, hin', ringCovers_iff.mp h1⟩
+  · exact ⟨-1, Or.inr rfl, hcl, hsz, hin', ringCovers_iff.mp h1⟩
+
+theorem HullRingWeakSpec.convex {pts r : List Pt} {sgn : Int} (h : HullRingWeakSpec pts r sgn) :
+    ∀ e ∈ edges r, ∀ c ∈ r, 0 ≤ sgn * det e.1 e.2 c :=
+  fun e he c hc => h.inputs_inside e he c (h.corners_are_inputs c hc)
+
 theorem hullCheck_point {pts : List Pt} {p : Pt} (h : hullCheck pts (.point p) = true) :
     pts ≠ [] ∧ ∀ q ∈ pts, q = p := by
   simp only [hullCheck, Bool.and_eq_true, Bool.not_eq_true', List.all_eq_true, decide_eq_true_eq] at h
